@@ -508,6 +508,9 @@ func (r *rewriter) selectStmt(s *ast.SelectStmt, label *ast.Ident) ast.Stmt {
 		clauses = append(clauses, &ast.CaseClause{List: []ast.Expr{&ast.BasicLit{Kind: token.INT, Value: strconv.Itoa(idx)}}, Body: append(bind, body...)})
 		idx++
 	}
+	// a default clause that cannot be reached keeps the statement terminating whenever the select was
+	// (a function ending in a select whose cases all return must still compile)
+	clauses = append(clauses, &ast.CaseClause{Body: []ast.Stmt{&ast.ExprStmt{X: call(ast.NewIdent("panic"), &ast.BasicLit{Kind: token.STRING, Value: `"vrt: impossible select index"`})}}})
 	args := append([]ast.Expr{ast.NewIdent(strconv.FormatBool(hasDefault))}, cases...)
 	var sw ast.Stmt = &ast.SwitchStmt{Tag: call(sel("vrt", "Select"), args...), Body: &ast.BlockStmt{List: clauses}}
 	if label != nil {
